@@ -12,3 +12,7 @@ Proof. exact (Quant.C04_disjoint vs b). Qed.
 Theorem C04_indep vs b v s x : robdd b -> In v vs -> beval (upd s v x) (bex vs b) = beval s (bex vs b).
 Proof. exact (Quant.C04_indep vs b v s x). Qed.
 Print Assumptions C04_exists. Print Assumptions C04_equal_sets.
+
+(** the hypotheses are satisfiable and the operations do something: exists x1 . (x1 & x3) = x3 *)
+Example C04_instance : robdd (Nd (Nd T 3 F) 1 F) /\ bex (1 :: nil) (Nd (Nd T 3 F) 1 F) = Nd T 3 F /\ ball (1 :: nil) (Nd (Nd T 3 F) 1 F) = F.
+Proof. split; [split; cbn; repeat split; auto; discriminate|]. split; vm_compute; reflexivity. Qed.
